@@ -1,4 +1,4 @@
-From InfOCF Require Import Core Tol SysZ SysW Lex Kz Form Model Spec Diag Mcs Cnf CInf CModel.
+From InfOCF Require Import Core Tol SysZ SysW Lex Kz Form Model Spec Diag Mcs Cnf CInf CModel Ocf.
 (* Entry points evaluated by the correspondence check (extracted to OCaml, or by vm_compute). *)
 Definition is_none {A} (o:option A) : bool := match o with None => true | Some _ => false end.
 
@@ -46,3 +46,11 @@ Definition run_cinf (n:nat) (D qs:list cond) (wit:list (nat * list nat)) (bound:
    selffulfilling n D,
    map (fun q => (map positions (qvMin n D q), map positions (qfMin n D q), search_counter n D bound q)) qs,
    map (fun p => check_counter n D (snd p) (nth (fst p) qs {| ckey := 0; ccons := FTop; cante := FBot |})) wit).
+
+(* C16 / C18 *)
+Definition run_zocf (n:nat) (ext:option bool) (facts:list form) (D:list cond) (ops:list zop) :
+  option (list (list nat) * list (cache * zout)) :=
+  match zocf_partition n ext facts D with None => None
+  | Some P => Some (keys_of P, zrun n P (cache0 n) ops) end.
+Definition tpo_back (t:table) (vals:list nat) : list (world * nat) := tpo2ranks (ranks2tpo t) (fun i => nth i vals 0).
+Definition ocf_funs := (frank, accept, marginalize, conditionalize, ranks2tpo, tpo_back).
